@@ -65,7 +65,7 @@ func (fc *FuncC) allTags() map[string]bool {
 		}
 	}
 	for _, l := range fc.Loops {
-		for _, cl := range [][]Clause{l.Inv, l.Dec, l.Back, l.Iter, l.Exit, l.Entry} {
+		for _, cl := range [][]Clause{l.Inv, l.Dec, l.Back, l.Iter, l.Exit, l.Entry, l.Ret} {
 			for _, c := range cl {
 				add(c.Tags)
 			}
@@ -128,7 +128,7 @@ func runCheck(args []string) int {
 	var names []string
 	for _, name := range p.cs.Order {
 		fc := p.cs.Funcs[name]
-		if fc.Kind == "func" && fc.allTags()[id] {
+		if fc.Kind == "func" && (fc.allTags()[id] || p.callsRequiring(name, id)) {
 			names = append(names, name)
 		}
 	}
@@ -494,4 +494,33 @@ func smoke(p *Program, fn *ssa.Function, fc *FuncC) string {
 		}
 	}
 	return ""
+}
+
+// callsRequiring: does the function call (statically) a function whose contract has a requires clause tagged id?
+// Such a call site carries an obligation of the property although the caller's own clauses do not mention it.
+func (p *Program) callsRequiring(name, id string) bool {
+	fn := p.funcs[name]
+	if fn == nil {
+		return false
+	}
+	for _, b := range fn.Blocks {
+		for _, in := range b.Instrs {
+			c, ok := in.(ssa.CallInstruction)
+			if !ok {
+				continue
+			}
+			callee := c.Common().StaticCallee()
+			if callee == nil {
+				continue
+			}
+			if fc := p.cs.Funcs[funcName(callee)]; fc != nil {
+				for _, r := range fc.Req {
+					if hasTag(r.Tags, id) {
+						return true
+					}
+				}
+			}
+		}
+	}
+	return false
 }
